@@ -52,9 +52,11 @@ type c14Case struct {
 	K       int    `json:"k"`
 	C       int    `json:"c"`
 	Perturb int    `json:"perturb"`
+	RL      int    `json:"rl"`    // rateLimit of the server block (0 = practically unlimited)
 	Clock   string `json:"clock"` // none | short | mid | long: second round of callers after the cache clock advanced (hook h3b)
 	Tracer  bool   `json:"tracer"`
 	Gc      bool   `json:"gc"`
+	qcap    int
 }
 
 // how far the fake cache clock is advanced between the two rounds
@@ -289,10 +291,16 @@ func c14Run(cs c14Case, deadline time.Duration, traced bool) (recs []c14Rec, han
 		defer promhook.SetTracer(nil)
 	}
 
-	prom := promapi.NewPrometheus("prom", srv.URL(), "", nil, 20*time.Second, cs.C, 1000000, nil)
+	rl := 1000000
+	if cs.RL > 0 {
+		rl = cs.RL
+	}
+	prom := promapi.NewPrometheus("prom", srv.URL(), "", nil, 20*time.Second, cs.C, rl, nil)
 	reg := prometheus.NewRegistry()
 	fg := promapi.NewFailoverGroup("prom", srv.URL(), []*promapi.Prometheus{prom}, false, "up", nil, nil, nil)
 	fg.StartWorkers(reg)
+	_, qcap := promhook.QueueState(fg)
+	cs.qcap = qcap
 	base := time.Now()
 	var offset atomic.Int64
 	if clocked {
@@ -399,7 +407,7 @@ func c14Project(cs c14Case, qs []c14Q, ask []int, traced bool, gids []uint64, re
 	id := cs.ID
 	c := c14Blank("Case", id)
 	c["k"], c["c"], c["mix"], c["fault"], c["lat"], c["perturb"], c["traced"], c["gc"] = len(ask), cs.C, cs.Mix, cs.Fault, cs.Lat, cs.Perturb, traced, cs.Gc
-	c["clock"] = cs.Clock
+	c["clock"], c["rl"], c["qcap"] = cs.Clock, cs.RL, cs.qcap
 	c["questions"], c["asks"], c["t0"] = qs, ask, int(c14T0)
 	recs = append(recs, c)
 
@@ -508,6 +516,17 @@ func c14Project(cs c14Case, qs []c14Q, ask []int, traced bool, gids []uint64, re
 		}
 	}
 	e["returned"] = returned
+	// wall-clock span between the first and the last request arriving at the server (rate limiter binding)
+	var first, last int64
+	for _, x := range srvLog {
+		if first == 0 || x.AtNs < first {
+			first = x.AtNs
+		}
+		if x.AtNs > last {
+			last = x.AtNs
+		}
+	}
+	e["span_us"], e["nreq"] = int((last-first)/1000), len(srvLog)
 	e["replay"] = replay
 	recs = append(recs, e)
 	return recs
